@@ -85,12 +85,27 @@ pub fn open(
     buf: usize,
 ) -> (DuplexStream, Door) {
     let (client, server) = tokio::io::duplex(buf);
+    (client, open_on(ctx, protocol, sni, sni_creds, peer, server))
+}
+
+/// the same over any transport the harness supplies
+pub fn open_on<T>(
+    ctx: &VContext,
+    protocol: VProtocol,
+    sni: &str,
+    sni_creds: Option<String>,
+    peer: SocketAddr,
+    server: T,
+) -> Door
+where
+    T: tokio::io::AsyncRead + tokio::io::AsyncWrite + Unpin + Send + 'static,
+{
     let ctx = ctx.clone();
     let sni = sni.to_string();
     let task = tokio::spawn(async move {
         vh::on_tunnel_request(&ctx, protocol, vh::wrap_io(server, peer), sni, sni_creds).await
     });
-    (client, Door { task })
+    Door { task }
 }
 
 // ------------------------------------------------------------------------------------------------
